@@ -70,6 +70,18 @@ def definitions(tier):
             out.append(D(mod('trans', D(mod(c1, a, b)), x=0.3)))
             out.append(D(mod(c1, mod('trans', a, x=0.3), b)))
     out.append(D(('>', 0.0, mod('sum', plain[0], plain[1])), ('>=', 2.05, mod('product', plain[3], plain[1]))))
+    # a multi-range ARGUMENT whose first piece is an unmarked modifier of the same kind as its parent, followed by further ranges
+    zero = form('zero')
+    for c1 in ('sum', 'product'):
+        for a, b, c3 in itertools.product(sub[:4], repeat=3):
+            out.append(D(mod(c1, D(mod(c1, a, b), ('>=', 2.0, zero)), c3)))
+            out.append(D(mod(c1, c3, D(mod(c1, a, b), ('>', 1.5, LEAVES[1]), ('>=', 4.0, zero)))))
+    # powers of powers: the magnitude idiom (f^2)^0.5 with f changing sign, (f^2)^1.5, (f^4)^0.25, integer outer exponents
+    signed = [form('polynomial', 1.0, -2.0, 0.5), form('polynomial', -3.0, 1.0), form('morse', 1.8, 2.0, 0.6)]
+    for f_ in signed:
+        for e1, e2 in ((2, 0.5), (2, 1.5), (4, 0.25), (2, 2), (3, 2), (2.0, 0.5)):
+            out.append(D(mod('pow', mod('pow', f_, form('constant', e1)), form('constant', e2))))
+            out.append(D(mod('sum', mod('pow', mod('pow', f_, form('constant', e1)), form('constant', e2)), form('constant', 1))))
     # structured deep chains (depth 4 and 5) and wide modifiers (arity 5)
     for k in range(8):
         a, b, c_, d_, e_ = [plain[(k + j) % 5] for j in range(5)]
@@ -286,7 +298,9 @@ def run_defs(case):
         api = None
         try:
             if not X.uses(d, lambda it: 'custom' in it or it.get('mod') == 'trans'):
-                api = R.api_defn(potable_semantics(d))
+                # definitions without any range marker: compose the callables DIRECTLY (plus/product/pow nested as a user of the
+                # Python API would); all separations probed are > 0, where the default range is transparent
+                api = R.api_defn(d if all_unmarked(d) else potable_semantics(d))
         except R.NoAPI:
             api = None
         bps = X.breakpoints(d)
@@ -321,6 +335,16 @@ def run_defs(case):
                     viol.append(dict(sig='differs-from-python-api:%s' % top(d), msg='"%s" at r=%r: potable %r, Python-API composition %r' % (X.render_defn(d), r, got, av), detail={}))
                     break
     return viol, n
+
+
+def all_unmarked(d):
+    for marker, _s, it in d['ranges']:
+        if marker is not None or len(d['ranges']) > 1:
+            return False
+        for a in it.get('args', []):
+            if not all_unmarked(a):
+                return False
+    return True
 
 
 def potable_semantics(d):
